@@ -283,6 +283,69 @@ def nothing_and_padding(ctx, out):
                           observed=q_[:200], promised=p_[:200])
 
 
+GAP_LINES = ["garbage", "  384 = B 60000", "  0 = N 0 0", "  Resolution = 7", "  5 = E \"section gap\"", "", "  ", "// comment", "  0 = TS 3", "  96 = S 2 5",
+             "  Name = \"gap\"", "x = y", "  0 = A 5"]
+
+
+def gaps(ctx, out):
+    """lines written between a section's header and its opening brace are not between the braces: no section's parser receives them"""
+    import random as _r
+    rng = ctx.sub("gaps")
+    prof = gen.Profile(max_tracks=3, garbage=0.0, unknown_sections=0.2, crlf=0.0)
+    cases = []
+    for _ in range(ctx.n(60, 6000)):
+        src = gen.rand_src(rng, prof)
+        R = gen.render(src, _r.Random(rng.randrange(1 << 30)), prof, garbage=False, newline="\n")
+        lines, n = [], 0
+        for l in R.lines:
+            if l == "{" and lines and lines[-1].startswith("[") and rng.random() < 0.5:
+                k = rng.randint(1, 2)
+                lines += [rng.choice(GAP_LINES) for _ in range(k)]
+                n += k
+            lines.append(l)
+        if n:
+            cases.append((R.text if R.text.endswith("\n") else R.text + "\n", "\n".join(lines) + "\n", n))
+    a, b = common.run_charts([(t, None) for c in cases for t in c[:2]])
+    for k, (t1, t2, n) in enumerate(cases):
+        x1, x2, y2 = a[2 * k], a[2 * k + 1], b[2 * k + 1]
+        rp = {"op": "gap", "base": t1, "with_gap_lines": t2}
+        out.case("Gp" + fw.h(t2), True, None, tags=["lines-between-header-and-brace"])
+        out.traces += 1
+        if common.framing_proj(x2) != common.framing_proj(y2):
+            p_, q_ = fw.first_diff(x2, y2)
+            out.corr_mismatch("lines between a header and its brace", common.chart_replay(t2), impl=p_, model=q_)
+        if x1 != x2:
+            p_, q_ = fw.first_diff(x1, x2)
+            out.violation("gap-" + fw.h(t2), f"{n} line(s) written between a header and its opening brace changed the parse: {p_[:100]!r} vs {q_[:100]!r}", rp,
+                          observed=q_[:200], promised=p_[:200])
+
+
+def absent_lookups(ctx, out):
+    """the keys of the track map are the headers of the file — also after the chart was asked about instruments it does not have"""
+    rng = ctx.sub("absent")
+    prof = gen.Profile(max_tracks=3, garbage=0.0, unknown_sections=0.0)
+    ins, dif = impl.enums()
+    for _ in range(ctx.n(30, 2000)):
+        src = gen.rand_src(rng, prof)
+        R = gen.render(src, rng, prof)
+        c, e, _ = impl.parse(R.text)
+        out.case("Ab" + fw.h(R.text), True, None, tags=["absent-lookups"])
+        if c is None:
+            continue
+        want = sorted({(t.inst, t.diff) for t in src.tracks})
+        for i in ins:
+            for f in (lambda: c[i], lambda: c.instrument_tracks.get(i), lambda: i in c.instrument_tracks, lambda: c.notes_per_second(i, dif[rng.randrange(4)])):
+                try:
+                    f()
+                except (KeyError, ValueError):
+                    pass
+        got = sorted((ins.index(i), dif.index(d)) for i, dd in c.instrument_tracks.items() for d in dd)
+        empty = [ins.index(i) for i, dd in c.instrument_tracks.items() if not dd]
+        if got != want or empty:
+            out.violation("absent-" + fw.h(R.text), f"after lookups of every instrument the chart's tracks are keyed {got} (empty entries for instruments {empty}), the file's headers are {want}",
+                          {"op": "absent", "text": R.text, "want": want}, observed=[got, empty], promised=want)
+
+
 def malformed(ctx, out):
     """scanner correspondence on broken framing (model quirks are compared, nothing is promised)"""
     rng = ctx.sub("malformed")
@@ -328,6 +391,8 @@ def slice(ctx: fw.Ctx) -> fw.Outcome:
     files(ctx, out)
     nothing_and_padding(ctx, out)
     malformed(ctx, out)
+    gaps(ctx, out)
+    absent_lookups(ctx, out)
     # "receives exactly the body lines between that section's braces": what Chart.from_file makes of each section is what that
     # section's own public parser makes of exactly those lines (texts with //, #, ;, quotes and backslashes inside values included)
     direct.run(ctx, out, "all", gen.Profile(max_tracks=3, max_events=8, unknown_sections=0.3, meta_fields=0.8, tricky_text=0.7, exotic_pad=0.2, exotic_digits=0.1),
@@ -339,6 +404,20 @@ def replay(ctx, data):
     op = data["op"]
     if op == "direct-section":
         return direct.replay(data)
+    if op == "absent":
+        ins, dif = impl.enums()
+        c, e, _ = impl.parse(data["text"])
+        if c is None:
+            return False, "does not parse"
+        for i in ins:
+            for f in (lambda: c[i], lambda: c.notes_per_second(i, dif[0])):
+                try:
+                    f()
+                except (KeyError, ValueError):
+                    pass
+        got = sorted([ins.index(i), dif.index(d)] for i, dd in c.instrument_tracks.items() for d in dd)
+        empty = [ins.index(i) for i, dd in c.instrument_tracks.items() if not dd]
+        return got != [list(w) for w in data["want"]] or bool(empty), str([got, empty])
     if op == "variants":
         xb, xp, xc = (impl.run_chart(data[k]) for k in ("base", "perm", "crlf"))
         return (strip_warn(xp) != strip_warn(xb) or xc != xb), str(fw.first_diff(xb, xp if strip_warn(xp) != strip_warn(xb) else xc))
@@ -358,6 +437,9 @@ def replay(ctx, data):
     if op == "nothing-path":
         x = impl.run_path(bytes.fromhex(data["hex"]))
         return x != "E ValueError", x[:200]
+    if op == "gap":
+        x1, x2 = impl.run_chart(data["base"]), impl.run_chart(data["with_gap_lines"])
+        return x1 != x2, str(fw.first_diff(x1, x2))[:300]
     if op == "padded":
         x1, x2 = impl.run_chart(data["base"]), impl.run_chart(data["with_padded_braces"])
         return strip_warn(x1) != strip_warn(x2), str(fw.first_diff(strip_warn(x1), strip_warn(x2)))[:300]
